@@ -13,7 +13,7 @@ from msmart.lan import LAN, _LanProtocolV3
 ID = "C04"
 LEVEL = "exploration"
 RULE = ("a stream = optional marker-free garbage prefix + 1..4 V3 packets (handshake-response and encrypted-response types, payload "
-        "sizes incl. 0/1/13..16/30.., payloads containing 83 70 and ending in 83); a case = (stream, segmentation). Protocol driver: a real "
+        "sizes incl. 0/1/13..16/30.., payloads containing 83 70 and ending in 83; plus every payload size 0..1300 followed by a second packet); a case = (stream, segmentation). Protocol driver: a real "
         "_LanProtocolV3 is fed segment by segment through data_received and drained with read(timeout=0) after every segment; the "
         "cumulative delivered list must equal exactly the payloads of the packets whose last byte has arrived (exactly-once, order, "
         "completeness, promptness). Timed driver: the segments of 1..3 streams arrive at chosen virtual instants (gaps 0, 1 ms .. 7 s, 45 s) while a reader task "
@@ -115,6 +115,15 @@ def generate(ctx, rng):
             k = rng.randint(3, max(3, n - 1))
             cuts = sorted(rng.sample(range(1, n), min(k, n - 1)))
             yield ("rnd", s["sid"], j), {"kind": "cuts", "stream": s, "cuts": cuts}
+    # every payload size up to 1300 bytes (every value of the 16-bit size field's low byte with several high bytes), each
+    # followed by a second small packet, delivered whole and with one cut
+    sid = 10000
+    for n in range(0, 1301):
+        for ptype in ((1, 3) if (quick and n % 4 == 0) or not quick else (1,)):
+            sid += 1
+            s = {"g": b"", "p": [(ptype, rng.randbytes(n)), (3, rng.randbytes(5))], "sid": sid}
+            total = len(_mk_packet(s["p"][0], 0)[0]) + len(_mk_packet(s["p"][1], 1)[0])
+            yield ("size", n, ptype), {"kind": "sizes", "stream": s, "cutsets": [[], [rng.randint(1, total - 1)], [total - rng.randint(1, 40)]]}
     # several streams in a row through ONE protocol instance (state carried over between streams)
     for j in range(250 if quick else 8000):
         picks = [rng.choice(streams) for _ in range(rng.randint(2, 4))]
@@ -223,6 +232,11 @@ def run_case(ctx, case):
     n = len(wire)
     sid = stream["sid"]
     multi = len(expected) > 1 or len(stream["g"]) > 0
+    if kind == "sizes":
+        for cuts in case["cutsets"]:
+            _feed(ctx, case, stream, wire, ends, expected, tuple(sorted(cuts)))
+            ctx.count((sid, tuple(cuts)), kind="size-sweep", nontrivial=True)
+        return
     if kind == "cuts":
         cuts = tuple(case["cuts"])
         ok = _feed(ctx, case, stream, wire, ends, expected, cuts)
